@@ -137,6 +137,7 @@ def one_call(p, c, logdir, call_no, rng, tfail, ifail):
                     break
             import gc
             import warnings
+            t0 = time.time()
             with warnings.catch_warnings():
                 warnings.simplefilter("ignore")
                 if how == "close":
@@ -144,6 +145,7 @@ def one_call(p, c, logdir, call_no, rng, tfail, ifail):
                 else:
                     del r
                     gc.collect()
+            out["close_s"] = round(time.time() - t0, 2)
             out["values"] = vals
             out["abandoned"] = True
         else:
